@@ -3,6 +3,7 @@ package checkerh
 
 import (
 	"context"
+	"fmt"
 	"math/rand"
 	"sort"
 	"time"
@@ -328,13 +329,33 @@ func repair(args map[string]string) error {
 			cancel()
 			continue
 		}
+		// sometimes a rule covers only part of the key space: a region that spans its boundaries must be split there first
+		regionKeys, ruleBounds := []int{0, 256}, []int{}
+		if rulesMode && rng.Intn(5) == 0 {
+			if err := cl.GetRuleManager().SetRule(&placement.Rule{GroupID: "verif", ID: "range", Index: len(jrules), Role: placement.Voter, Count: 1,
+				StartKeyHex: "50", EndKeyHex: "a0"}); err == nil {
+				jrules = append(jrules, trace.Ev{"role": "voter", "count": 1, "constraints": []trace.Ev{}, "location": []string{}, "isolation": ""})
+				ruleBounds = []int{0x50, 0xa0}
+				rk := [][]int{{0, 256}, {0x10, 0x40}, {0x30, 0x70}, {0x60, 256}, {0x20, 0xf0}, {0x50, 0xa0}, {0x58, 0x90}}[rng.Intn(7)]
+				regionKeys = rk
+				var sk, ek []byte
+				if rk[0] > 0 {
+					sk = []byte{byte(rk[0])}
+				}
+				if rk[1] < 256 {
+					ek = []byte{byte(rk[1])}
+				}
+				region = region.Clone(core.WithStartKey(sk), core.WithEndKey(ek))
+				cl.PutRegion(region)
+			}
+		}
 		var jstores []trace.Ev
 		for _, s := range cl.GetStores() {
 			jstores = append(jstores, StoreRec(cl, s))
 		}
 		sort.Slice(jstores, func(i, j int) bool { return jstores[i]["id"].(int) < jstores[j]["id"].(int) })
 		peers, dl, ds, pend := RegionRecs(cl, region)
-		ev := trace.Ev{"ev": "case", "n": c, "rules_mode": rulesMode, "cfg": trace.Ev{"max": maxRep, "location": loc, "isolation": iso},
+		ev := trace.Ev{"ev": "case", "n": c, "region_keys": regionKeys, "rule_bounds": ruleBounds, "rules_mode": rulesMode, "cfg": trace.Ev{"max": maxRep, "location": loc, "isolation": iso},
 			"case": trace.Ev{"stores": jstores, "peers": peers, "rules": jrules}, "down_long": dl, "down_short": ds, "pending": pend}
 		var op *operator.Operator
 		if rulesMode {
@@ -345,6 +366,17 @@ func repair(args map[string]string) error {
 			op = checker.NewReplicaChecker(cl, cache.NewDefaultCache(10)).Check(region)
 		}
 		desc, steps := OpRec(op)
+		splitAt := []int{}
+		for _, st := range steps {
+			if st["k"] == "Split" {
+				for _, h := range st["split_keys"].([]string) {
+					var v int
+					fmt.Sscanf(h, "%x", &v)
+					splitAt = append(splitAt, v)
+				}
+			}
+		}
+		ev["split_at"] = splitAt
 		ev["has_op"], ev["desc"], ev["steps"] = op != nil, desc, steps
 		kinds[desc]++
 		w.Emit(ev)
